@@ -14,7 +14,7 @@ _NOTE = ('Trusted base: minimysql semantics (serial transactions, DESIGN.md 4), 
          '<= 2 batches each, <= 3 updates, <= 7 jobs per update, job groups nested <= 2, <= 8 instances.')
 
 
-def _entry(pid, text, oracle, n_quick=600, n_thorough=40000, offset=0, expected=()):
+def _entry(pid, text, oracle, n_quick=600, n_thorough=40000, offset=0, expected=(), extra_scenarios=()):
     return {
         'level': 'exploration',
         'engine': 'batchsim',
@@ -25,7 +25,7 @@ def _entry(pid, text, oracle, n_quick=600, n_thorough=40000, offset=0, expected=
         'level_note': _NOTE,
         'scenarios': [{'module': 'worlds.batch.lifecycle', 'quick': n_quick, 'thorough': n_thorough,
                        'params': {'props': [pid]}, 'seed_offset': offset,
-                       'wall_cap': {'quick': 400.0, 'thorough': 3000.0}}],
+                       'wall_cap': {'quick': 400.0, 'thorough': 3000.0}}] + list(extra_scenarios),
         'expected_probes': list(expected),
     }
 
@@ -67,6 +67,17 @@ CHECKS = {
                      'update / job / group, contiguous ordered id ranges, counters equal recount, client ids == server ids.',
                      'real client + real front end over a lossy simulated network; exactly-once and id-agreement oracles',
                      12000, 600000, expected=['co_updater_joined', 'submit_raised']),
+    'C14': _fe_entry('C14', 'worlds.batch.access',
+                     'Every route of the real front_end.routes table is classified from the property text and requested by '
+                     'unauthenticated, garbage-token, inactive, deleted, non-member, member, owner, developer and auth-service '
+                     'callers (Bearer token or session cookie) against batches in every lifecycle state while the owner works; '
+                     'a refused pair must be answered with an error / login redirect on every delivery and leave all tables '
+                     'and the blob store unchanged with no committed transaction. Samples histories; not a proof.',
+                     'route-table enumeration x caller matrix inside a running service history; response oracle on every '
+                     'server-side answer, whole-database digest + commit count around each gated intruder request',
+                     4000, 200000, expected=['forbidden_refused', 'permitted_ok', 'cookie_auth', 'ui_login_redirect',
+                                             'concurrent_intruder', 'membership_changed', 'target:open_update',
+                                             'target:running', 'target:cancelled', 'target:complete', 'target:deleted']),
     'C01': _entry('C01', 'After every committed transaction of seeded service histories the scheduler counters '
                          '(per user / instance collection, and per job group cancellable rows) are compared with a '
                          'recount from the jobs table. Sampling of histories, not a proof.',
@@ -94,7 +105,9 @@ CHECKS = {
                          'beneath it, re-cancelling inserts nothing, and every stored-procedure call made by the driver '
                          'under any combination of cancelled groups returns normally.',
                   'cancellation-scope monitor + procedure health', offset=600_000,
-                  expected=['cancel_committed', 'cancel_child_then_ancestor']),
+                  expected=['cancel_committed', 'cancel_child_then_ancestor', 'cancelled_then_submitted'],
+                  extra_scenarios=[{'module': 'worlds.batch.cancelscope', 'quick': 1500, 'thorough': 120000,
+                                    'seed_offset': 650_000, 'wall_cap': {'quick': 400.0, 'thorough': 3000.0}}]),
     'C10': _entry('C10', 'After every commit touching attempts or instances, free cores of each live instance equal '
                          'total minus cores of its un-ended attempts; inactive instances are entirely free.',
                   'free-core recount after every commit', offset=700_000),
